@@ -39,6 +39,9 @@ func (e *seqEngine) Run(a *agg, spec *PropSpec, seed uint64) {
 	if hi == 0 {
 		lo, hi = 20, 200
 	}
+	if a.opts.Tier == "thorough" && rng.Intn(2) == 0 {
+		hi *= 2 // deeper programs in half of the thorough runs
+	}
 	nops := lo + rng.Intn(hi-lo+1)
 	if e.saveLoad {
 		pl := &SaveLoadPlan{ChunkSeed: rng.Uint64(), MaxChunk: []int{0, 1, 3, 17, 400}[rng.Intn(5)], CleanUp: rng.Bool()}
